@@ -186,6 +186,27 @@ class Sym:
         with NoTracing():
             self.tags[tag] = self.tags.get(tag, 0) + 1
 
+    @staticmethod
+    def _z3(c):
+        v = getattr(c, 'var', None)
+        if v is not None and z3.is_bool(v):
+            return v
+        if isinstance(c, bool):
+            return z3.BoolVal(c)
+        raise HarnessError("cover_if needs comparisons of symbolic values, got %r" % (type(c),))
+
+    def cover_if(self, tag, *conds):
+        """coverage WITHOUT forking the path: the tag is hit when the conjunction of `conds` (results of
+        comparisons on symbolic values, not yet coerced to bool) is satisfiable together with the path
+        condition, i.e. the values this path stands for include the situation.  One solver query, no branch."""
+        with NoTracing():
+            if tag in self.tags:
+                return
+            space = context_statespace()
+            e = z3.And(*[self._z3(c) for c in conds])
+            if space.solver.check(e) == z3.sat:
+                self.tags[tag] = 1
+
     def note(self, key, value):
         with NoTracing():
             self.notes[key] = value
@@ -258,13 +279,20 @@ def explore(harness, part, budget_s=60.0, per_path_timeout=20.0, max_paths=10 **
                             verdict = Failure('twin', 'reachability twin: final assertion reached')
                         want_sample = len(res['samples']) < n_samples
                         want_audit = res['audit']['checked'] < audit_max
-                        if verdict is not None or want_sample or want_audit:
+                        if verdict is not None and verdict.classify is None and type(verdict.sig) is str and verdict.sig in res['violations']:
+                            pass        # signature already has a realised counterexample: no need to realise again
+                        elif verdict is not None or want_sample or want_audit:
                             space.detach_path()
                             with NoTracing():
                                 _prefer_dyadic(space, sym)
                             realised = _realize_inputs(space, sym)
                             if verdict is not None:
-                                verdict = Failure(deep_realize(verdict.sig), str(deep_realize(verdict.why)))
+                                vsig = str(deep_realize(verdict.sig))
+                                if verdict.classify is not None:
+                                    with NoTracing():
+                                        vsig = str(verdict.classify(part, {k: dec(enc(v)) for k, v in realised.items()}))
+                                why = verdict.why() if callable(verdict.why) else verdict.why
+                                verdict = Failure(vsig, str(deep_realize(why)))
                     if ef.user_exc is not None:
                         exc, tb = ef.user_exc
                         if isinstance(exc, TypeError) and suspected_proxy_intolerance_exception(exc):
@@ -308,8 +336,10 @@ def explore(harness, part, budget_s=60.0, per_path_timeout=20.0, max_paths=10 **
                                 cs = ConcreteSym({k: dec(v) for k, v in enc_inputs.items()})
                                 cres = harness(cs, part)
                                 csig = cres.sig if cres is not None else None
+                                if cres is not None and cres.classify is not None:
+                                    csig = str(cres.classify(part, dict(cs.inputs)))
                                 ssig = verdict.sig if verdict is not None else None
-                                if csig != ssig or sorted(cs.tags) != sorted(sym.tags):
+                                if csig != ssig or not set(cs.tags) <= set(sym.tags):
                                     res['audit']['mismatches'].append(dict(
                                         inputs=enc_inputs, symbolic=[ssig, sorted(sym.tags)],
                                         concrete=[csig, sorted(cs.tags)]))
